@@ -848,8 +848,20 @@ impl MessageReceiver {
         }
       }
 
-      ReaderSubmessage::NackFrag(_, _) => {
-        // TODO: Implement NackFrag handling
+      ReaderSubmessage::NackFrag(nackfrag, _) => {
+        // Route to the local Writer the same way as AckNack. Without this, a sample
+        // of which a Reader holds only some fragments is never repaired: the Reader
+        // requests its missing fragments by NackFrag only.
+        match self
+          .acknack_sender
+          .try_send((self.source_guid_prefix, AckSubmessage::NackFrag(nackfrag)))
+        {
+          Ok(_) => (),
+          Err(TrySendError::Full(_)) => {
+            info!("AckNack pipe full. Looks like I am very busy. Discarding submessage.");
+          }
+          Err(e) => warn!("AckNack pipe fail: {:?}", e),
+        }
       }
     }
   }
